@@ -87,6 +87,8 @@ pub struct Pipe {
     pub receiver_dropped: bool,
     /// the receiver observed the error/end: (what, time)
     pub recv_end_seen: Option<&'static str>,
+    /// reads issued after the reset had been reported once (answered "no more data", as Quinn does)
+    pub reset_read_again: u64,
     /// writes attempted after FIN/RESET or other contract breaches by the *user* of the transport
     pub misuse: Vec<String>,
     /// staged by a script: the RECEIVER's `poll_data` calls on this pipe report this connection error
@@ -1194,6 +1196,12 @@ impl quic::RecvStream for SimRecv {
             return Poll::Ready(Err(inject_result(r)));
         }
         if p.reset_delivered {
+            // Quinn reports the peer's reset once; a stream read again afterwards answers
+            // "no more data" (measured over real Quinn by C17: read_again_after_error[reset:None])
+            if p.recv_end_seen == Some("reset") {
+                p.reset_read_again += 1;
+                return Poll::Ready(Ok(None));
+            }
             p.recv_end_seen = Some("reset");
             return Poll::Ready(Err(StreamErrorIncoming::StreamTerminated {
                 error_code: p.reset_sent.unwrap_or(0),
